@@ -108,7 +108,7 @@ def concSubs : List String → Option (List String)
 def runConc (g r n : String) (rest : List String) : String :=
   match g.toNat?, r.toNat?, n.toNat? with
   | some g, some r, some n =>
-    if g < 1 ∨ g > 64 ∨ r < 1 ∨ r > 200 ∨ n < 1 ∨ n > 32 ∨ rest.length ≠ 5 * n then "bad-op" else
+    if g < 1 ∨ g > 64 ∨ r < 1 ∨ r > 2000 ∨ n < 1 ∨ n > 32 ∨ rest.length ≠ 5 * n then "bad-op" else
     match concSubs rest with
     | some xs => " ; ".intercalate xs
     | none => "bad-op"
